@@ -498,6 +498,9 @@ func c10Run(r *fw.Rec, c evalCase) {
 			}
 		}
 	}
+	if c.det && !bad && !orderDep && !errChoice && len(c.prog)%3 == 0 {
+		bad = c10Definedness(r, c.prog, in, o)
+	}
 	if !bad {
 		r.Held()
 	}
